@@ -148,6 +148,63 @@ func scenarioFresh(c *vrun.Ctx) {
 		}
 		env.close()
 	}
+	// ---- a ranged GET refused with 416 and retried without Range (retry_on_range_416): the
+	// storability decision must be taken on the response that is actually stored ----
+	dirs := []string{"", "no-store", "private", "max-age=0", "max-age=600", "no-cache"}
+	for _, ignore := range []bool{false, true} {
+		env := newEnv(envOpts{Backend: p.Backend, IgnoreCC: ignore, Retry416: true, DefaultMaxAgeS: 3600})
+		for _, d416 := range dirs {
+			for _, d200 := range dirs {
+				caseNo++
+				if !c.Mine(caseNo) {
+					continue
+				}
+				c.Case()
+				uri := env.uniq("t")
+				name := "t" + strconv.Itoa(env.seq)
+				h := func(d string) vnet.H {
+					if d == "" {
+						return vnet.H{}
+					}
+					return vnet.H{{"Cache-Control", d}}
+				}
+				env.origin.Put(uri, &vnet.Res{Name: name, Size: 24, SupportsRange: true, NoConditionals: true, Headers: h(d200), Headers416: h(d416)})
+				desc := fmt.Sprintf("ignore=%v; ranged GET answered 416 (Cache-Control %q), retried without Range and answered 200 (Cache-Control %q); then two plain GETs 1 s apart", ignore, d416, d200)
+				r0, reqs0 := env.do("GET", uri, vnet.H{{"Range", "bytes=100-200"}}, "")
+				if len(reqs0) != 2 || r0.Status != 200 {
+					c.Outcome(fmt.Sprintf("416-retry: status %d upstream %d", r0.Status, len(reqs0)))
+					continue // the retry did not take place as scripted; C19/C07 judge that
+				}
+				ref := parseRefCC([]string{d200})
+				marked := d200 != "" && (ref.noStore || ref.noCache || ref.private || (ref.maOK && ref.ma == 0))
+				pattern := ""
+				for step := 1; step <= 2; step++ {
+					vtime.Advance(time.Second)
+					env.origin.Bump(uri)
+					_, reqs := env.do("GET", uri, nil, "")
+					contact := len(reqs) > 0
+					if contact {
+						pattern += "C"
+					} else {
+						pattern += "H"
+					}
+					if !contact && !ignore && marked {
+						c.SetCase(desc)
+						c.Violation("C04/fresh/store/reused-unstorable/after-416-retry", fmt.Sprintf("plain GET %d was answered from the store although the 200 that was stored is marked %q | %s", step, d200, desc), nil)
+					}
+					if contact && step == 1 && (ignore || (!marked && (ref.maOK && ref.ma > 0 || d200 == ""))) {
+						c.SetCase(desc)
+						c.Violation("C04/fresh/store/not-reused-while-fresh/after-416-retry", fmt.Sprintf("plain GET %d contacted the origin although the retried 200 (%q) is storable and was received a second ago | %s", step, d200, desc), nil)
+					}
+					if contact {
+						break
+					}
+				}
+				c.Outcome("416-retry:" + d416 + "/" + d200 + ":" + pattern)
+			}
+		}
+		env.close()
+	}
 	c.Res.Bounds["header_classes"] = len(classes)
 	c.Res.Bounds["policies"] = len(policies) * len(defaults)
 	c.Res.Bounds["gap_patterns"] = 9
